@@ -40,13 +40,12 @@ def time_limit(seconds):
 
     def handler(signum, frame):
         raise ImplHang(f'no answer within {seconds} s')
-    old = signal.signal(signal.SIGALRM, handler)
-    signal.setitimer(signal.ITIMER_REAL, seconds)
+    import common
+    old = common.arm_watchdog(handler, seconds)   # CPU-time limit + wall-clock backstop
     try:
         yield
     finally:
-        signal.setitimer(signal.ITIMER_REAL, 0)
-        signal.signal(signal.SIGALRM, old)
+        common.disarm_watchdog(old)
 
 
 class TooManyHangs(Exception):
